@@ -448,6 +448,8 @@ def check(prop, tier, replay=None, quiet=False):
                 scen = json.load(open(replay)).get("scenario", "")
                 if part.get("scenario_prefix") and not scen.startswith(part["scenario_prefix"]):
                     continue
+                if part.get("scenario_exclude") and scen.startswith(part["scenario_exclude"]):
+                    continue
             res, he = run_part(prop, part, tier, replay=replay, seed=seed, known_file=known_file())
             all_res += res
             herr += he
